@@ -20,6 +20,8 @@ import PydapModel.Cache
 import Proofs.Cache
 import PydapModel.Consolidate
 import Proofs.Consolidate
+import PydapModel.Sessions
+import Proofs.Sessions
 namespace Pydap.C18
 open Pydap Pydap.Proxy
 
@@ -463,5 +465,105 @@ example : ∀ g ∈ exFiles, ∃ r, g.path = '/' :: r := by
   · exact ⟨_, rfl⟩
   · exact ⟨_, rfl⟩
 example : 1 ∉ slabSel 3 (0, 1, 0) ∧ slabSel 3 (0, 1, 2) = [0, 1, 2] ∧ slabSel 5 (0, 1, 2) = [0, 1, 2] := by decide
+
+/-! ### several sessions in one process -/
+-- model: PydapModel/Sessions.lean — a process is a list of sessions; `create_session` gives every session its own
+-- backend object, `patch_session_for_shared_dap_cache` installs the key closure on THAT object
+
+/-- **Consolidation is per session — every process state, every interleaved history, every session j.**
+    What session `j` sees (per GET handed to it: request, key, hit/miss, answer) in a history in which the other
+    sessions read and are consolidated in between is exactly what it sees in the history with all events of the other
+    sessions removed; and session `j` ends in the same state (caching flag, installed key function, store). -/
+theorem C18_consolidation_is_per_session {ρ : Type} (orig : List Char → List Char) (server : CK.Req → ρ)
+    (p : Sessions.Proc ρ) (evs : List Sessions.Ev) (j : Nat) :
+    Sessions.traceOf j (Sessions.run orig server p evs).1 =
+        Sessions.traceOf j (Sessions.run orig server p (evs.filter (Sessions.concerns j))).1 ∧
+      (Sessions.run orig server p evs).2[j]? = (Sessions.run orig server p (evs.filter (Sessions.concerns j))).2[j]? :=
+  ⟨(Sessions.run_local orig server j evs p p rfl rfl).1, (Sessions.run_local orig server j evs p p rfl rfl).2.2⟩
+
+/-- one step: `consolidate_metadata` on session `i` (all its GETs, the installation of the key closure) and any GET
+    through session `i` leave every other session's key function and store as they were, and hand it no GET -/
+theorem C18_consolidate_leaves_other_sessions {ρ : Type} (orig : List Char → List Char) (server : CK.Req → ρ)
+    (p : Sessions.Proc ρ) (i j : Nat) (hij : i ≠ j) (files : List FileIn) :
+    (Sessions.step orig server p (.consolidate i files)).2[j]? = p[j]? ∧
+      Sessions.traceOf j (Sessions.step orig server p (.consolidate i files)).1 = [] ∧
+      ∀ r, (Sessions.step orig server p (.get i r)).2[j]? = p[j]? :=
+  ⟨(Sessions.step_skip orig server p j (.consolidate i files) (by simp [Sessions.concerns, hij])).2.2,
+   (Sessions.step_skip orig server p j (.consolidate i files) (by simp [Sessions.concerns, hij])).1,
+   fun r => (Sessions.step_skip orig server p j (.get i r) (by simp [Sessions.concerns, hij])).2.2⟩
+
+/-- **The bystander reads plainly, all interleaved histories.** A session on which no key closure is installed and
+    which is never consolidated itself (its store may hold anything satisfying the invariant, e.g. be empty) gets for
+    EVERY GET the server's answer, under the unpatched key (no key at all when it is a plain session) — whatever the
+    other sessions of the process read or consolidate in between. Hypotheses as in `C18_cache_transparent_url`:
+    the unpatched key is injective on URLs, the server is a function of the URL. -/
+theorem C18_bystander_session_plain {ρ : Type} (orig : List Char → List Char) (server : CK.Req → ρ)
+    (horig : ∀ a b, orig a = orig b → a = b) (hfun : ∀ u v : CK.Req, u.url = v.url → server u = server v)
+    (p : Sessions.Proc ρ) (evs : List Sessions.Ev) (j : Nat)
+    (hj : ∀ s, p[j]? = some s → s.decls = [] ∧ Sessions.FInv orig server s.store)
+    (hnever : ∀ files, Sessions.Ev.consolidate j files ∉ evs) :
+    ∀ x ∈ (Sessions.run orig server p evs).1, x.1 = j →
+      x.2.resp = server x.2.req ∧ (x.2.key = none ∨ x.2.key = some (Key.orig (orig x.2.req.url))) :=
+  Sessions.run_bystander orig server horig hfun j evs p hj hnever
+
+/-- **The same on the default settings of `create_session`** (`backend="sqlite"`, one cache name: the caching sessions
+    of the process have their own backend objects — own key functions — but ONE database file, `Sessions.FileProc`):
+    the store is filled by every session, also under consolidated keys; a session on which nothing is installed
+    still gets for every GET the unpatched key and the server's answer (it may hit what another session stored under
+    the same URL key; an entry under a normalised key is never its key). -/
+theorem C18_bystander_shared_file {ρ : Type} (orig : List Char → List Char) (server : CK.Req → ρ)
+    (horig : ∀ a b, orig a = orig b → a = b) (hfun : ∀ u v : CK.Req, u.url = v.url → server u = server v)
+    (p : Sessions.FileProc ρ) (evs : List Sessions.Ev) (j : Nat)
+    (hstore : Sessions.FInv orig server p.store) (hj : ∀ ds, p.decls[j]? = some ds → ds = [])
+    (hnever : ∀ files, Sessions.Ev.consolidate j files ∉ evs) :
+    ∀ x ∈ (Sessions.runFile orig server p evs).1, x.1 = j →
+      x.2.resp = server x.2.req ∧ (x.2.key = none ∨ x.2.key = some (Key.orig (orig x.2.req.url))) :=
+  Sessions.runFile_bystander orig server horig hfun j evs p hstore hj hnever
+
+/-- **One backend object for all caching sessions (the arrangement of seed C18-y) does not have the property**:
+    `Sessions.runShared` sends the events of every session through one key function and one store; session 0 is
+    consolidated for `exFiles`, session 1 then reads `t` of the second file whole — and sees something else than it
+    sees alone (the next two examples: the normalised key, a hit, the FIRST file's pre-fetched answer). -/
+theorem C18_shared_backend_refuted :
+    ¬ ∀ (c : Sessions.Sess (List Char)) (evs : List Sessions.Ev) (j : Nat),
+        Sessions.traceOf j (Sessions.runShared id (fun r => r.url) c evs).1 =
+          Sessions.traceOf j (Sessions.runShared id (fun r => r.url) c (evs.filter (Sessions.concerns j))).1 := by
+  intro h
+  have := h (Sessions.fresh true) Sessions.exHist 1
+  revert this
+  decide +kernel
+
+/-! non-vacuity -/
+/-- shared backend object: the bystander's read of `t` from the second file is answered with the first file's array -/
+example : Sessions.traceOf 1 (Sessions.runShared id (fun r => r.url) (Sessions.fresh true) Sessions.exHist).1 =
+    [⟨Sessions.exRead, some (keyAfter id exDecl (dimReq exFileA "t".toList 2)), true, (dimReq exFileA "t".toList 2).url⟩] := by
+  decide +kernel
+/-- the code as it is (own backend objects): unpatched key, a miss, the second file's own answer -/
+example : Sessions.traceOf 1 (Sessions.run id (fun r => r.url) [Sessions.fresh true, Sessions.fresh true] Sessions.exHist).1 =
+    [⟨Sessions.exRead, some (Key.orig Sessions.exRead.url), false, Sessions.exRead.url⟩] := by decide +kernel
+/-- … while the consolidated session itself does share: its own read of the same request is a hit on the pre-fetch;
+    a third session created later and a plain session are bystanders too -/
+example : (Sessions.run id (fun r => r.url) [Sessions.fresh true, Sessions.fresh true, Sessions.fresh false]
+      (Sessions.exHist ++ [.get 0 Sessions.exRead, .create true, .get 3 Sessions.exRead, .get 2 Sessions.exRead, .get 1 Sessions.exRead])).1.drop 3
+    = [(1, ⟨Sessions.exRead, some (Key.orig Sessions.exRead.url), false, Sessions.exRead.url⟩),
+       (0, ⟨Sessions.exRead, some (keyAfter id exDecl (dimReq exFileA "t".toList 2)), true, (dimReq exFileA "t".toList 2).url⟩),
+       (3, ⟨Sessions.exRead, some (Key.orig Sessions.exRead.url), false, Sessions.exRead.url⟩),
+       (2, ⟨Sessions.exRead, none, false, Sessions.exRead.url⟩),
+       (1, ⟨Sessions.exRead, some (Key.orig Sessions.exRead.url), true, Sessions.exRead.url⟩)] := by decide +kernel
+/-- the hypotheses of `C18_bystander_session_plain` hold for session 1 of that process and history -/
+example : ∀ x ∈ (Sessions.run id (fun r : CK.Req => r.url) [Sessions.fresh true, Sessions.fresh true] Sessions.exHist).1, x.1 = 1 →
+    x.2.resp = x.2.req.url ∧ (x.2.key = none ∨ x.2.key = some (Key.orig x.2.req.url)) :=
+  C18_bystander_session_plain id (fun r => r.url) (fun _ _ h => h) (fun _ _ h => h) _ _ 1
+    (by intro s hs; cases hs; exact ⟨rfl, Sessions.finv_nil _ _⟩) (by intro files h; simp [Sessions.exHist] at h)
+/-- one database file: the bystander HITS what the consolidated session stored under the same URL key (the DMR of the
+    first file), with the server's answer; the hypotheses of `C18_bystander_shared_file` hold -/
+example : Sessions.traceOf 1 (Sessions.runFile id (fun r => r.url) ⟨[[], []], []⟩
+      [.consolidate 0 exFiles, .get 1 (dmrReq exFileA), .get 1 Sessions.exRead]).1
+    = [⟨dmrReq exFileA, some (Key.orig (dmrReq exFileA).url), true, (dmrReq exFileA).url⟩,
+       ⟨Sessions.exRead, some (Key.orig Sessions.exRead.url), false, Sessions.exRead.url⟩] := by decide +kernel
+example : ∀ x ∈ (Sessions.runFile id (fun r : CK.Req => r.url) ⟨[[], []], []⟩ Sessions.exHist).1, x.1 = 1 →
+    x.2.resp = x.2.req.url ∧ (x.2.key = none ∨ x.2.key = some (Key.orig x.2.req.url)) :=
+  C18_bystander_shared_file id (fun r => r.url) (fun _ _ h => h) (fun _ _ h => h) _ _ 1 (Sessions.finv_nil _ _)
+    (by intro ds h; cases h; rfl) (by intro files h; simp [Sessions.exHist] at h)
 
 end Pydap.C18
